@@ -269,6 +269,37 @@ class QuietOps:
         return True
 
 
+class ReadReports:
+    """a user algo that only looks: it reads public report getters of its target (and of its children) in the middle of a run - a
+    logger, a risk check, a plotting hook.  What a finished backtest reports must not depend on who looked at what, and when."""
+    GETTERS = ["positions", "prices", "values", "outlays", "weight", "value", "universe", "notional_value", "capital", "price"]
+
+    def __init__(self, seed):
+        self.seed = seed
+
+    def __call__(self, target):
+        import random as _random
+        try:
+            o = target.now.toordinal()
+        except Exception:
+            return True
+        r = _random.Random(self.seed * 7919 + o)
+        for g in self.GETTERS:
+            if r.random() < 0.6:
+                try:
+                    getattr(target, g)
+                except Exception:   # a getter that raises here raises for everybody; not this algo's business
+                    pass
+        for c in list(target.children.values()):
+            if r.random() < 0.3:
+                for g in ("positions", "weight", "values"):
+                    try:
+                        getattr(c, g)
+                    except Exception:
+                        pass
+        return True
+
+
 class SetCash:
     def __init__(self, c):
         self.c = c
@@ -340,6 +371,8 @@ def mk_algo(bt, d, tickers, dates, data, perturb=None):
         return a.RunOnDate(*d[1:])
     if n == "CapitalFlow":
         return a.CapitalFlow(d[1])
+    if n == "ReadReports":
+        return ReadReports(d[1])
     if n == "QuietOps":
         return QuietOps(d[1], d[2] if len(d) > 2 else True)
     if n == "SelectAll":
@@ -358,6 +391,8 @@ def mk_algo(bt, d, tickers, dates, data, perturb=None):
         return a.WeighSpecified(**d[1])
     if n == "WeighInvVol":
         return a.WeighInvVol(lookback=pd.DateOffset(days=d[1]), lag=pd.DateOffset(days=d[2]))
+    if n == "WeighERC":
+        return a.WeighERC(lookback=pd.DateOffset(days=d[1]), lag=pd.DateOffset(days=d[2]), covar_method="standard", maximum_iterations=500, tolerance=1e-6)
     if n == "WeighRandomly":
         return SeededWeighRandomly(bt, d[1])
     if n == "WeighTarget":
